@@ -4,7 +4,9 @@
 proof:          lean/OdfModel/Props/C17.lean (roundtrip, roundtrip_append, no_raw_whitespace,
                 roundtrip_after_merge) about the model lean/OdfModel/Teletype.lean, and
                 lean/OdfModel/Props/C17SaveLoad.lean (roundtrip_through_canon, roundtrip_saveload: the inserted nodes written
-                by the writer model and read back by the reference parser of the XML layer still extract to the string)
+                by the writer model and read back by the reference parser of the XML layer still extract to the string),
+                lean/OdfModel/Props/C17Merge.lean (mergeText_enc / saveload_identity: no two inserted text nodes are adjacent, so
+                the merge a save/load cycle performs returns the inserted list itself; enc_injective, enc_injective_after_merge)
 correspondence: node list appended by odf.teletype.addTextToElement  vs  `enc [] s` (drv_teletype)
 oracle:         extractText(addTextToElement(s)) == s directly, appended to a pre-filled element,
                 and after save()+load(); node predicate (no TAB/LF/double blank in text nodes)
@@ -317,7 +319,7 @@ def run(chk, replay=None):
             if back != [s]:
                 return 1
         return 0 if got == before + s and clean_nodes(new) else 1
-    chk.prove(modules=['OdfModel.Props.C17', 'OdfModel.Props.C17SaveLoad'], drivers=['drv_teletype'])
+    chk.prove(modules=['OdfModel.Props.C17', 'OdfModel.Props.C17SaveLoad', 'OdfModel.Props.C17Merge'], drivers=['drv_teletype'])
     drv = chk.driver('drv_teletype')
     cases = list(gen_strings(chk))
     # ---- correspondence + direct oracles
@@ -399,11 +401,19 @@ def run(chk, replay=None):
         if len(ps) != len(batch):
             chk.fail('roundtrip-saveload', {'s': [enc_str(s) for s, _ in batch[:3]]}, 'paragraph count %d != %d' % (len(ps), len(batch)))
             continue
-        for (s, _), p in zip(batch, ps):
+        model = drv.batch('enc ' + enc_str(s) for s, _ in batch)
+        for ((s, _), p), ans in zip(zip(batch, ps), model):
             chk.count('saveload')
             got = teletype.extractText(p)
             if got != s:
                 chk.fail('roundtrip-saveload', {'s': enc_str(s), 'mode': 'saveload'}, 'after save+load extractText gave %r for %r' % (short(got), short(s)))
+            else:
+                # C17Merge.saveload_identity: mergeText (enc [] s) = enc [] s - the loaded children are node for node the model's list
+                # (only where the string itself came back, so the character replacement of KF-C17-1 stays with its own signature)
+                impl = 'ok ' + ' '.join(dump_nodes(p.childNodes))
+                chk.corr(); chk.count('saveload_structure')
+                if impl.strip() != ans.strip():
+                    chk.corr_diff({'s': enc_str(s), 'mode': 'saveload'}, impl, ans, 'children of the paragraph after save+load vs enc [] s (saveload_identity)')
     # ---- big parts: multi-byte characters across every byte offset 2^12..2^17 of content.xml and styles.xml
     seen = {}; base = {}
     for pad in (0, 1, 2):
